@@ -86,6 +86,23 @@ def check_fit(case):
         chosen = D[np.arange(mq), p]
         tol = 1e-9 * (1.0 + D.max())
         require(bool(np.all(chosen <= D.min(axis=1) + tol)), "predict:not-nearest", "", facts)
+    if case.get("refit_then_predict"):
+        # the instance is trained again on other rows (same k) after it answered: its answers are about the second model
+        X2 = np.ascontiguousarray(X[::-1] * 0.5 + 3.0)
+        np.random.seed(case["seed"] + 2)
+        m.fit(X2)
+        ok2, h2 = _hist_ok(np.asarray(m.labels_), k, n)
+        require(ok2, "fit:sizes:refit", "cluster sizes %r for n=%d k=%d after a second fit" % (h2.tolist(), n, k), facts)
+        C2 = np.asarray(m.cluster_centers_)
+        np.random.seed(case["seed"] + 3)
+        p2 = np.asarray(m.predict(Q))
+        if case["balanced"]:
+            okq, hq2 = _hist_ok(p2, k, mq)
+            require(okq, "predict:sizes:refit", "balanced predictions sizes %r for m=%d k=%d after a second fit" % (hq2.tolist(), mq, k), facts)
+        else:
+            D2 = ((Q[:, None, :] - C2[None, :, :]) ** 2).sum(axis=2)
+            require(bool(np.all(D2[np.arange(mq), p2] <= D2.min(axis=1) + 1e-9 * (1.0 + D2.max()))), "predict:not-nearest:refit",
+                    "after a second fit, predict does not return the nearest of the NEW centres", facts)
     # how unbalanced was the plain k-means with the same seed? (label only)
     try:
         km = KMeans(n_clusters=k, random_state=case["random_state"] if case["random_state"] is not None else case["seed"] % 1000,
@@ -188,6 +205,6 @@ CLAUSES = [
            doc="6-10 fit/predict cases per evaluation re-run in a child interpreter started with -O (assert statements not executed)"),
     Clause("large", check_fit, strategy=lambda tier: with_sk(with_np(_large_cases(tier))), quick=48, thorough=800, quick_shards=16, thorough_shards=16,
            doc="the same statement on batches / training sets of several hundred rows (sizes crossing 256, 512, 1024)"),
-    Clause("fit-predict", check_fit, strategy=lambda tier: st.builds(lambda c, v: dict(c, via_set_params=v), with_sk(with_np(_cases(tier))), st.sampled_from([False, False, True])), quick=3200, thorough=60000, quick_shards=16,
+    Clause("fit-predict", check_fit, strategy=lambda tier: st.builds(lambda c, v, rf: dict(c, via_set_params=v, refit_then_predict=rf), with_sk(with_np(_cases(tier))), st.sampled_from([False, False, True]), st.sampled_from([False, False, True])), quick=3200, thorough=60000, quick_shards=16,
            doc="sizes after fit, label range, finite centres, n_iter_, balanced / nearest predictions"),
 ]
